@@ -139,6 +139,18 @@ def rule_lists(ctx: Ctx):
                       ue.key, f"return {show(vv)}")
             n += 1
             continue
+        inner = vv.args[0] if isinstance(vv, ast.Call) and show(vv.func) == "list" and len(vv.args) == 1 else None
+        if isinstance(inner, ast.Call) and isinstance(inner.func, ast.Attribute) and inner.func.attr == "keys" and not inner.args:
+            inner = inner.func.value
+        if isinstance(inner, ast.DictComp):
+            gens = inner.generators
+            ok2 = len(gens) == 2 and not gens[0].ifs and not gens[1].ifs and show(gens[0].iter) == "self.transitions" and \
+                isinstance(gens[0].target, ast.Name) and show(gens[1].iter) == f"{gens[0].target.id}.events" and \
+                isinstance(gens[1].target, ast.Name) and show(inner.key) == gens[1].target.id
+            rep.check(ok2, "C13.lists", ue.loc(), "unique_events de-duplicates in first-occurrence order over transitions, then over each transition's events",
+                      ue.key, f"return {show(vv)}")
+            n += 1
+            continue
         d = next((f"$l{e.idx}" for e in evs if e.kind == "alloc" and isinstance(e.term, ast.Dict)), None)
         v = xshow(p.value, evs)
         iters = [e for e in evs if e.kind == "iter" and e.x.get("loop") == "for"]
